@@ -49,7 +49,8 @@ Dissector
                   addresses, i.e. 0x8100 for a tagged frame), "off": 0}
     "vlan"       list of {"pcp","cfi","vid","tci","type","off"} outermost first ("type" is the
                   16-bit field following the tag); absent when untagged
-    "llc"        {"dsap","ssap","ctrl","off","length"}; present for 802.3 length frames
+    "llc"        {"dsap","ssap","ctrl","off","length"}; present for 802.3 length frames (the control
+                  field is read as one byte, i.e. U-format frames such as UI = 3)
     "snap"       {"oui": bytes3, "type": int, "off"}
     "ethertype"  effective EtherType after VLAN tags / SNAP (None for 802.3 without SNAP)
     "l3_off"     offset of the first byte after the link-layer headers
